@@ -33,12 +33,6 @@ open Glom Glom.C18
     `__len__`, `values`, `items` are the expected expressions on `__ops__`. -/
 theorem c18_facts_wf : WF genFacts = true := by decide
 
-theorem wf_fmt {F : Facts} (h : WF F = true) : F.fmt = F1 := by
-  simp only [WF, Bool.and_eq_true] at h
-  obtain ⟨⟨⟨⟨⟨⟨⟨h1, h2⟩, h3⟩, _⟩, _⟩, _⟩, _⟩, _⟩ := h
-  cases hf : F.fmt with
-  | mk a b c => rw [hf] at h1 h2 h3; simp only at h1 h2 h3; subst h1; subst h2; subst h3; rfl
-
 /-- **`eval(repr(t))` for T expressions** rooted anywhere (T, S, A): the text is
     read back as a T expression with the same root and the same steps (keyword
     arguments as a dict: in key order), and that object has the same repr. -/
@@ -75,12 +69,8 @@ theorem c18_norm_kwargs_perm {α : Type} (kwargs : List (String × α)) :
     roots T, S, A (pickling of the argument values themselves is `pickle`'s). -/
 theorem c18_pickle {L : Type} (F : Facts) (hwf : WF F = true) (root : String)
     (hr : root ∈ ["T", "S", "A"]) (steps : List (Step L)) :
-    (getstate F.getstateRoots root steps).bind (setstate F.setstateRoots) = some (root, steps) := by
-  simp only [WF, Bool.and_eq_true, List.all_eq_true] at hwf
-  have := hwf.1.1.1.1.2 root hr
-  obtain ⟨h1, h2⟩ := this
-  simp only [List.contains_eq_mem, decide_eq_true_eq] at h1 h2
-  simp [getstate, setstate, h1, h2]
+    (getstate F.getstateRoots root steps).bind (setstate F.setstateRoots) = some (root, steps) :=
+  pickle_roundtrip F hwf root hr steps
 
 /-- **Sequence laws**: `len`, `p[i]`, `p[a:b:c]`, `values()`, `items()`, `==`,
     `startswith`, `Path(p, q)` and `from_t`, computed the way `Path` computes them on
@@ -153,16 +143,6 @@ theorem c18_concat (env : C01.TEnv) (hwf : C01.WF env = true) (h : Heap)
     rw [Nat.zero_add] at this
     rw [this]
     cases C01.walk env h q 0 v <;> rfl
-
-theorem pickleObj_valid {L : Type} (F : Facts) (hwf : WF F = true) (x : C18.Obj L)
-    (hv : validObj x = true) : pickleObj F x = some x := by
-  cases x with
-  | tobj r s =>
-    simp only [validObj, Bool.and_eq_true, List.contains_eq_mem, decide_eq_true_eq] at hv
-    simp only [pickleObj, c18_pickle F hwf r hv.1 s, Option.map_some]
-  | pobj r s =>
-    simp only [validObj, Bool.and_eq_true, beq_iff_eq] at hv
-    simp only [pickleObj, c18_pickle F hwf r (by rw [hv.1]; simp) s, Option.map_some]
 
 /-- **Checker theorem** — the form in which the round-trip property is also evaluated
     on the implementation's observation by the correspondence driver: for every valid
